@@ -541,6 +541,57 @@ func sameFile(cl, cr fsEv, fileV ssa.Value) bool {
 	return fileV != nil && v == fileV
 }
 
+// updatesIndex: g is writeIndex, or a helper of the package whose every success return follows
+// a successful index update (commitMessage: append, writeIndex, report its error).
+func (m *fsModel) updatesIndex(g *ssa.Function, depth int) bool {
+	if g == nil {
+		return false
+	}
+	if g == m.writeIdx {
+		return true
+	}
+	if depth > 2 || g.Parent() != nil || len(g.Blocks) == 0 || eng.FuncPkgPath(g) != eng.FuncPkgPath(m.writeIdx) {
+		return false
+	}
+	res := g.Signature.Results()
+	if res.Len() == 0 || !isErrorType(res.At(res.Len()-1).Type()) {
+		return false
+	}
+	var upd []*ssa.Call
+	eng.EachInstr(g, func(in ssa.Instruction) {
+		if call, ok := in.(*ssa.Call); ok && in.Parent() == g && m.updatesIndex(eng.StaticCallee(call.Common()), depth+1) {
+			upd = append(upd, call)
+		}
+	})
+	if len(upd) == 0 {
+		return false
+	}
+	okAll, n := true, 0
+	eng.EachInstr(g, func(in ssa.Instruction) {
+		ret, ok := in.(*ssa.Return)
+		if !ok || in.Parent() != g || eng.IsRecoverBlock(ret.Block()) {
+			return
+		}
+		rr := eng.ReturnResults(ret)
+		e := rr[len(rr)-1]
+		if definitelyNonNilErr(e) || eng.KnownNonNil(e, ret.Block()) {
+			return
+		}
+		n++
+		one := false
+		for _, u := range upd {
+			ev := errResultOf(u)
+			if ev != nil && eng.Dominates(u, ret) && (knownNilAt(ev, ret.Block()) || e == ev) {
+				one = true
+			}
+		}
+		if !one {
+			okAll = false
+		}
+	})
+	return okAll && n > 0
+}
+
 func (c *Ctx) c11Add(m *fsModel) {
 	r, p := c.R, c.P
 	add := p.Method("pkg/storage/file", "Store", "AddMessage")
@@ -550,7 +601,7 @@ func (c *Ctx) c11Add(m *fsModel) {
 	cons := shortFn(add)
 	var widx *ssa.Call
 	eng.EachInstr(add, func(in ssa.Instruction) {
-		if call, ok := in.(*ssa.Call); ok && eng.StaticCallee(call.Common()) == m.writeIdx {
+		if call, ok := in.(*ssa.Call); ok && in.Parent() == add && m.updatesIndex(eng.StaticCallee(call.Common()), 0) {
 			widx = call
 		}
 	})
@@ -870,15 +921,26 @@ func (c *Ctx) c11Remove(m *fsModel) {
 		n++
 		cons := siteCons(p, e.call, ord, "unlink-indexed")
 		okDom := false
-		eng.EachInstr(e.fn, func(in ssa.Instruction) {
-			call, ok := in.(*ssa.Call)
-			if !ok || eng.StaticCallee(call.Common()) != m.writeIdx {
-				return
+		// the unlink may sit in a helper (msg.removeRaw()): then the call of the helper is what
+		// the index update has to precede, at its only call site
+		fn, at := e.fn, ssa.Instruction(e.call)
+		for depth := 0; depth < 3 && !okDom; depth++ {
+			eng.EachInstr(fn, func(in ssa.Instruction) {
+				call, ok := in.(*ssa.Call)
+				if !ok || in.Parent() != fn || eng.StaticCallee(call.Common()) != m.writeIdx {
+					return
+				}
+				if eng.Dominates(call, at) && knownNilAt(call, at.Block()) {
+					okDom = true
+				}
+			})
+			sites := p.StaticCallSites(fn)
+			if okDom || fn.Parent() != nil || len(sites) != 1 || len(p.CallersOf(fn)) != 1 {
+				break
 			}
-			if eng.Dominates(call, e.call) && knownNilAt(call, e.call.Block()) {
-				okDom = true
-			}
-		})
+			at = sites[0].Instr.(ssa.Instruction)
+			fn = at.Parent()
+		}
 		if okDom {
 			r.Ok("C11/ORDER/remove", cons, p.InstrPos(e.call), "raw file is unlinked only after the index update succeeded")
 		} else {
